@@ -274,9 +274,6 @@ func opUnmarshal(a []string) (string, string, string) {
 		// `null` onto an already allocated pointer-to-pointer: the repo's own test suite pins "clears the inner pointer only"
 		ks = append(ks, "jsonNullNestedPointer")
 	}
-	if depthOf(doc) > 10000 {
-		ks = append(ks, "jsonDepthOver10000")
-	}
 	return i, o, strings.Join(ks, ",")
 }
 
